@@ -209,7 +209,11 @@ def gen_session(r, name, kind=None):
                 if c < 0.55:
                     tag = r.choice(HTAGS)
                     g = r.choice(olds)
-                    ops.insert(r.randrange(len(ops) + 1), "cp %d %d %s %s" % (tag, refs.new(r, tag), g[1], g[2]))
+                    at = r.randrange(len(ops) + 1)
+                    ops.insert(at, "cp %d %d %s %s" % (tag, refs.new(r, tag), g[1], g[2]))
+                    if r.random() < 0.6:      # the last physical operation before the copy is a read
+                        g2 = r.choice(olds)
+                        ops.insert(at, "get %s %s" % (g2[1], g2[2]))
                 else:
                     g = r.choice(olds + hls)
                     ops.insert(r.randrange(len(ops) + 1), "get %s %s" % (g[1], g[2]))
